@@ -491,6 +491,10 @@ func TestRegexType(t *testing.T) {
 				// multi-line ^ or $ asks for, the word (or non-word) character behind \b and \B
 				{`(?ms)^BEGIN$.*^END$`, "BEGIN\nEND", "BEGINEND", "BEGIN\nx\nEND", ""}, {`(?m)^a$[\s\S]*^b$`, "a\nb", "ab", "a\n\nb", "a b"},
 				{`(?m)^a$\W^b$`, "a\nb", "a b", "ab", "a\n"}, {`\d\B\pL+`, "1a", "1-", "1", "a1"},
+				// two assertions that need different kinds of characters in one pattern; a non-word character that
+				// is no printable ASCII one
+				{`(?m)^a$\W^\d\B\pL+`, "a\n1b", "a 1b", "a\n1", "a\nb"}, {`\d\B\pL\b\PL`, "1a ", "1a", "1 a", "a1 "},
+				{`a\b[\w\t]\bb`, "a\tb", "aab", "ab", "a b"}, {`\d\b[0-9\x{b0}]\B$`, "1\u00b0", "11", "1", "\u00b01"},
 				{`[\x{D000}-\x{E000}]{6}`, "\ud000\ud001\ud002\ud003\ud004\ud005", "abcdef", "", "\ud000"},
 			}).Draw(t, "curatedPattern")
 			c = RegexCase{Pattern: cur[0], Tail: tail, Probes: cur[1:]}
